@@ -284,6 +284,30 @@ Proof.
   cbn [length]. rewrite app_length. cbn [length]. rewrite app_length. cbn [length]. rewrite app_length. lia.
 Qed.
 
+Lemma nd_merge (pid lid rid : nat) (A L R B L' : list nat) :
+  NoDup (pid :: A ++ (lid :: L) ++ (rid :: R) ++ B) -> NoDup L' -> incl L' (L ++ R) ->
+  NoDup (pid :: A ++ (lid :: L') ++ B).
+Proof.
+  intros H HL' Hi. apply NoDup_cons_iff' in H as (Hp & H). apply NoDup_app_iff in H as (HA & H & HdA).
+  change ((lid :: L) ++ (rid :: R) ++ B) with (lid :: (L ++ (rid :: R) ++ B)) in H, HdA, Hp.
+  apply NoDup_cons_iff' in H as (Hl & H). apply NoDup_app_iff in H as (HL & H & HdL).
+  change ((rid :: R) ++ B) with (rid :: (R ++ B)) in H, HdL, Hl, Hp, HdA.
+  apply NoDup_cons_iff' in H as (Hr & H). apply NoDup_app_iff in H as (HR & HB & HdR).
+  assert (Hin : forall x, In x L' -> In x L \/ In x R) by (intros x Hx; apply in_app_iff; apply Hi; exact Hx).
+  apply NoDup_cons_iff'. split.
+  - intros Hx. apply Hp. rewrite in_app_iff in *. cbn [In app] in *. rewrite in_app_iff in Hx. rewrite !in_app_iff. cbn [In]. rewrite in_app_iff.
+    destruct Hx as [Hx|[Hx|[Hx|Hx]]]; try tauto. destruct (Hin _ Hx); tauto.
+  - apply NoDup_app_iff. split; [assumption|]. split.
+    + change ((lid :: L') ++ B) with (lid :: (L' ++ B)). apply NoDup_cons_iff'. split.
+      * intros Hx. apply Hl. rewrite in_app_iff in *. cbn [In]. rewrite in_app_iff. destruct Hx as [Hx|Hx]; [destruct (Hin _ Hx)|]; tauto.
+      * apply NoDup_app_iff. split; [assumption|]. split; [assumption|]. intros x Hx Hb. destruct (Hin _ Hx) as [Hx'|Hx'].
+        -- apply (HdL x Hx'). right. apply in_app_iff. now right.
+        -- apply (HdR x Hx' Hb).
+    + intros x Hx Hx2. change ((lid :: L') ++ B) with (lid :: (L' ++ B)) in Hx2. cbn [In] in Hx2. rewrite in_app_iff in Hx2.
+      apply (HdA x Hx). cbn [In]. rewrite in_app_iff. cbn [In]. rewrite in_app_iff.
+      destruct Hx2 as [Hx2|[Hx2|Hx2]]; try tauto. destruct (Hin _ Hx2); tauto.
+Qed.
+
 Section SIM.
 Variable c : nat.   (* creator of the mutating tree *)
 Notation own := (ownc c).
@@ -786,6 +810,401 @@ Proof.
     + intros x Hx. rewrite concat_app. cbn [concat] in *. rewrite ?app_nil_r. rewrite !in_app_iff in *. tauto.
     + rewrite concat_app. cbn [concat]. rewrite ?app_nil_r. rewrite !app_length. lia.
     + exists s6, fp'. split; [reflexivity|]. cbn [w_elts w_kids s_leaf s_elts] in Hrep. rewrite Hlsn, Hesn, Hlr in Hrep. split; assumption.
+Qed.
+
+(* ---------------------------------------------------------------- steal from the left sibling *)
+
+Lemma left_steal_sim t s pid p fp selfid index p' b :
+  rep s pid p fp -> own s pid -> own s selfid -> kid_at s pid index selfid ->
+  try_left_steal t p index = Ok (p', b) ->
+  exists s' fp', s_try_left_steal t s selfid pid index = Ok (s', b) /\
+     rep s' pid p' fp' /\ sub s fp fp' /\ fr s s' fp /\ own s' pid /\ own s' selfid /\
+     kid_at s' pid index selfid.
+Proof.
+  intros Hr Hop Hos Hkid Hv. destruct p as [plf pes pks]. unfold try_left_steal in Hv.
+  destruct index as [|im].
+  { inversion Hv; subst p' b. exists s, fp. split; [reflexivity|]. split; [assumption|]. split; [apply sub_refl|]. split; [apply fr_refl|]. auto. }
+  destruct (split_at im pks) as [((ka & lft) & rest)| |] eqn:Esp; cbn [bind] in Hv; try discriminate.
+  apply split_at_inv in Esp as (-> & Hka).
+  destruct rest as [|self kb]; [discriminate|].
+  destruct (rep_open _ _ _ _ _ _ _ _ Hr Hop) as (ia & lid0 & ib & fa & fl0 & fb & Hopen & -> & ->).
+  pose proof Hopen as (n & Hn & Hcn & Hln & Hen & Hkn & Hra & Hrl0 & Hrb & Hlia & Hnd).
+  apply reps_cons_inv in Hrb as (sid & ib' & fs0 & fb' & -> & -> & Hrs0 & Hrb').
+  assert (sid = selfid).
+  { destruct Hkid as (n0 & Hn0 & Hk0). assert (n0 = n) by congruence. subst n0.
+    rewrite Hkn in Hk0. replace (ia ++ lid0 :: sid :: ib') with ((ia ++ [lid0]) ++ sid :: ib') in Hk0 by (now rewrite <- app_assoc).
+    replace (S im) with (length (ia ++ [lid0])) in Hk0 by (rewrite app_length; cbn; lia).
+    rewrite nth_error_app_mid in Hk0. congruence. }
+  subst sid.
+  unfold s_try_left_steal. rewrite (sget_some _ _ _ Hn). cbn [bind]. rewrite Hkn.
+  rewrite split_at_app by congruence. cbn [bind].
+  destruct lft as [llf les lks]. destruct self as [slf ses sks].
+  destruct (rep_root _ _ _ _ _ _ Hrl0) as (l0 & Hl0 & Hll0 & Hel0).
+  rewrite (sget_some _ _ _ Hl0). cbn [bind]. rewrite Hel0.
+  rewrite is_minimal_eq in Hv. cbn [n_elts] in Hv.
+  destruct (is_minimal_l t (length les)) as [mn| |] eqn:Emn; cbn [bind] in Hv |- *; try discriminate.
+  destruct mn.
+  { inversion Hv; subst p' b.
+    exists s, (pid :: concat (fa ++ fl0 :: fs0 :: fb')). split; [reflexivity|].
+    split; [assumption|]. split; [apply sub_refl|]. split; [apply fr_refl|]. auto. }
+  destruct (split_at im pes) as [((ea & pe) & eb)| |] eqn:Ees; cbn [bind] in Hv; try discriminate.
+  destruct (pop_last les) as [(les' & le)| |] eqn:Epl; cbn [bind] in Hv; try discriminate.
+  (* copy-on-write of the left sibling *)
+  assert (Hl2 : length ka = im) by assumption.
+  destruct (cow_child_ok _ _ _ _ _ _ _ _ _ Hr Hl2) as (s1 & lid & Ecow). rewrite Ecow. cbn [bind].
+  destruct (cow_child_sim _ _ _ _ _ _ _ _ _ _ _ Hr Hl2 Hop Ecow)
+    as (n1 & ia1 & ib1 & fa1 & fl & fb1 & Hn1 & Hcn1 & Hln1 & Hen1 & Hkn1 & Hra1 & Hrl & Hrb1 & Hlia1 & Hnd1 & Hol & Hfr1 & Hsub1 & Hoth).
+  rewrite (sget_some _ _ _ Hn1). cbn [bind]. rewrite Hen1, Ees. cbn [bind].
+  apply reps_cons_inv in Hrb1 as (sid2 & ib2 & fs1 & fb2 & -> & -> & Hrs1 & Hrb2).
+  assert (sid2 = selfid).
+  { assert (Hk : nth_error (ia1 ++ lid :: sid2 :: ib2) (S im) = Some selfid).
+    { apply Hoth; [lia|]. exists n. split; [assumption|]. rewrite Hkn.
+      replace (ia ++ lid0 :: selfid :: ib') with ((ia ++ [lid0]) ++ selfid :: ib') by (now rewrite <- app_assoc).
+      replace (S im) with (length (ia ++ [lid0])) by (rewrite app_length; cbn; lia). apply nth_error_app_mid. }
+    replace (ia1 ++ lid :: sid2 :: ib2) with ((ia1 ++ [lid]) ++ sid2 :: ib2) in Hk by (now rewrite <- app_assoc).
+    replace (S im) with (length (ia1 ++ [lid])) in Hk by (rewrite app_length; cbn; lia).
+    rewrite nth_error_app_mid in Hk. congruence. }
+  subst sid2.
+  apply rep_inv in Hrl as (l & flk & Hln_ & Hll & Hel & Hlks & -> & Hndl & Hlkl).
+  apply rep_inv in Hrs1 as (sn & fsk & Hsn & Hlsn & Hesn & Hsks & -> & Hnds & Hlks').
+  assert (Hflat1 : NoDup (pid :: concat fa1 ++ (lid :: concat flk) ++ (selfid :: concat fsk) ++ concat fb2)).
+  { rewrite concat_mid in Hnd1. cbn [concat] in Hnd1. exact Hnd1. }
+  destruct (nd2 _ _ _ _ _ _ _ Hflat1) as (_ & _ & _ & _ & (Hpl & Hps & Hls)).
+  rewrite (sget_some _ _ _ Hln_). cbn [bind]. rewrite Hel, Epl. cbn [bind].
+  assert (Hvp : (pid < length s1)%nat) by (apply nth_error_Some; congruence).
+  assert (Hvl : (lid < length s1)%nat) by (apply nth_error_Some; congruence).
+  assert (Hvs : (selfid < length s1)%nat) by (apply nth_error_Some; congruence).
+  rewrite (upd_some _ _ _ _ Hln_). cbn [bind].
+  set (s2 := sset s1 lid (w_elts l les')).
+  assert (Hn1_2 : nth_error s2 pid = Some n1) by (unfold s2; rewrite nth_sset_ne; auto).
+  rewrite (upd_some _ _ _ _ Hn1_2). cbn [bind].
+  set (s3 := sset s2 pid (w_elts n1 (ea ++ le :: eb))).
+  assert (Hsn_3 : nth_error s3 selfid = Some sn).
+  { unfold s3, s2. rewrite !nth_sset_ne; auto. }
+  rewrite (upd_some _ _ _ _ Hsn_3). cbn [bind].
+  set (s4 := sset s3 selfid (w_elts sn (pe :: s_elts sn))).
+  assert (Hl_4 : nth_error s4 lid = Some (w_elts l les')).
+  { unfold s4, s3. rewrite !nth_sset_ne by auto. unfold s2. apply nth_sset_eq. assumption. }
+  rewrite (sget_some _ _ _ Hl_4). cbn [bind w_elts s_leaf]. rewrite Hll.
+  assert (Hp_4 : nth_error s4 pid = Some (w_elts n1 (ea ++ le :: eb))).
+  { unfold s4. rewrite nth_sset_ne by auto. unfold s3. apply nth_sset_eq. unfold s2. rewrite length_sset. assumption. }
+  assert (Hs_4 : nth_error s4 selfid = Some (w_elts sn (pe :: s_elts sn))).
+  { unfold s4. apply nth_sset_eq. unfold s3, s2. rewrite !length_sset. assumption. }
+  assert (Hoth4 : forall x, x <> lid -> x <> pid -> x <> selfid -> nth_error s4 x = nth_error s1 x).
+  { intros x H1 H2 H3. unfold s4, s3, s2. rewrite !nth_sset_ne; auto. }
+  assert (Hlen4 : length s4 = length s1) by (unfold s4, s3, s2; rewrite !length_sset; reflexivity).
+  assert (Hown4s0 : s_cr sn = c).
+  { destruct Hos as (m & Hm & Hcm). destruct Hfr1 as (_ & _ & C1). destruct (C1 _ _ Hm) as (m' & Hm' & Hcm'). congruence. }
+  assert (Hcl : s_cr l = c) by (destruct Hol as (m & Hm & Hcm); congruence).
+  assert (Hfinish : forall sF L' R' lks' fl' rks' fr',
+    cells3 s1 sF pid (w_elts n1 (ea ++ le :: eb)) lid L' selfid R' ->
+    s_cr L' = c -> s_cr R' = c ->
+    reps s1 (s_kids L') lks' fl' -> reps s1 (s_kids R') rks' fr' ->
+    (s_leaf L' = true -> s_kids L' = []) -> (s_leaf R' = true -> s_kids R' = []) ->
+    incl (concat flk ++ concat fsk) (concat fl' ++ concat fr') ->
+    (length (concat fl' ++ concat fr') <= length (concat flk ++ concat fsk))%nat ->
+    exists fp', rep sF pid (Node false (ea ++ le :: eb) (ka ++ Node (s_leaf L') (s_elts L') lks' :: Node (s_leaf R') (s_elts R') rks' :: kb)) fp' /\
+      sub s (pid :: concat (fa ++ fl0 :: fs0 :: fb')) fp' /\ fr s sF (pid :: concat (fa ++ fl0 :: fs0 :: fb')) /\
+      own sF pid /\ own sF selfid /\ kid_at sF pid (S im) selfid).
+  { intros sF L' R' lks' fl' rks' fr' Hcells HcL HcR HrL HrR HlkL HlkR Hincl Hlen.
+    destruct (surgery2 s1 sF pid n1 (w_elts n1 (ea ++ le :: eb)) lid l L' selfid sn R' ia1 ib2 ka kb fa1 fb2
+                lks flk sks fsk lks' fl' rks' fr') as (Hrep & Hback); try assumption; try reflexivity.
+    eexists. split; [exact Hrep|].
+    pose proof Hcells as (HlenF & HPF & HLF & HRF & HothF).
+    assert (HfrF : fr s1 sF [pid; lid; selfid]).
+    { eapply cells3_fr; [exact Hcells|exact Hn1|exact Hln_|exact Hsn|reflexivity|congruence|congruence]. }
+    split; [|split; [|split; [|split]]].
+    - intros x Hx. apply Hsub1. apply Hback. exact Hx.
+    - eapply fr_trans; [eapply fr_weaken; [exact Hfr1|]|exact Hsub1|eapply fr_weaken; [exact HfrF|]].
+      + intros x [<-|[]]. now left.
+      + intros x Hx. apply in_fp2. cbn [In] in Hx. destruct Hx as [<-|[<-|[<-|[]]]]; tauto.
+    - exists (w_elts n1 (ea ++ le :: eb)). split; [assumption|cbn; assumption].
+    - exists R'. split; assumption.
+    - exists (w_elts n1 (ea ++ le :: eb)). split; [assumption|]. cbn [w_elts s_kids]. rewrite Hkn1.
+      replace (ia1 ++ lid :: selfid :: ib2) with ((ia1 ++ [lid]) ++ selfid :: ib2) by (now rewrite <- app_assoc).
+      replace (S im) with (length (ia1 ++ [lid])) by (rewrite app_length; cbn; lia). apply nth_error_app_mid. }
+  destruct llf.
+  - (* leaves *)
+    inversion Hv; subst p' b; clear Hv.
+    destruct (Hfinish s4 (w_elts l les') (w_elts sn (pe :: s_elts sn)) lks flk sks fsk) as (fp' & Hrep & Hrest); try assumption; try (cbn; assumption).
+    + split; [assumption|]. split; [assumption|]. split; [assumption|]. split; [assumption|]. intros x H1 H2 H3. apply Hoth4; auto.
+    + cbn. intros _. destruct (Hlkl eq_refl). assumption.
+    + cbn. rewrite Hlsn. intros Hl. destruct (Hlks' Hl). assumption.
+    + apply incl_refl.
+    + lia.
+    + exists s4, fp'. split; [reflexivity|]. cbn [w_elts s_leaf s_elts] in Hrep. rewrite Hlsn, Hesn, Hll in Hrep. split; assumption.
+  - (* internal nodes: the last child of the left sibling moves over *)
+    rewrite (sget_some _ _ _ Hs_4). cbn [bind w_elts s_leaf]. rewrite Hlsn.
+    destruct slf; [discriminate|].
+    destruct (pop_last lks) as [(lks' & lc)| |] eqn:Eplk; cbn [bind] in Hv; try discriminate.
+    inversion Hv; subst p' b; clear Hv.
+    apply pop_last_inv in Eplk. subst lks.
+    apply reps_split in Hlks as (lki' & lci & flk' & flc & Hkl & -> & Hrlk' & Hrlc & Llk & Lflk).
+    apply reps_cons_inv in Hrlc as (lcid & nil1 & frc & nil2 & -> & -> & Hrrc & Hnil). apply reps_nil_inv in Hnil as (-> & ->).
+    cbn [s_kids w_elts]. rewrite Hkl. rewrite pop_last_app. cbn [bind].
+    rewrite (upd_some _ _ _ _ Hl_4). cbn [bind].
+    set (s5 := sset s4 lid (w_kids (w_elts l les') lki')).
+    assert (Hs_5 : nth_error s5 selfid = Some (w_elts sn (pe :: s_elts sn))) by (unfold s5; rewrite nth_sset_ne; auto).
+    rewrite (upd_some _ _ _ _ Hs_5). cbn [bind].
+    set (s6 := sset s5 selfid (w_kids (w_elts sn (pe :: s_elts sn)) (lcid :: s_kids sn))).
+    destruct (Hfinish s6 (w_kids (w_elts l les') lki') (w_kids (w_elts sn (pe :: s_elts sn)) (lcid :: s_kids sn))
+                lks' flk' (lc :: sks) (frc :: fsk)) as (fp' & Hrep & Hrest); try (cbn; assumption).
+    + unfold s6, s5. split; [rewrite !length_sset; assumption|]. split; [rewrite !nth_sset_ne by auto; assumption|].
+      split; [rewrite nth_sset_ne by auto; apply nth_sset_eq; lia|]. split; [apply nth_sset_eq; rewrite length_sset; lia|].
+      intros x H1 H2 H3. rewrite !nth_sset_ne by auto. apply Hoth4; auto.
+    + cbn. constructor; assumption.
+    + cbn. rewrite Hll. discriminate.
+    + cbn. rewrite Hlsn. discriminate.
+    + intros x Hx. rewrite concat_app in Hx. cbn [concat] in *. rewrite ?app_nil_r in *. rewrite !in_app_iff in *. tauto.
+    + rewrite concat_app. cbn [concat]. rewrite ?app_nil_r. rewrite !app_length. lia.
+    + exists s6, fp'. split; [reflexivity|]. cbn [w_elts w_kids s_leaf s_elts] in Hrep. rewrite Hlsn, Hesn, Hll in Hrep. split; assumption.
+Qed.
+
+(* ---------------------------------------------------------------- merge *)
+
+Lemma surgery_merge s s' pid P P' lid Ln L' rid Rn ia ib ka kb fa fb lks fl rks fr lks' fl' :
+  nth_error s pid = Some P -> nth_error s lid = Some Ln -> nth_error s rid = Some Rn ->
+  s_kids P = ia ++ lid :: rid :: ib ->
+  reps s ia ka fa -> reps s ib kb fb ->
+  reps s (s_kids Ln) lks fl -> reps s (s_kids Rn) rks fr ->
+  NoDup (pid :: concat (fa ++ (lid :: concat fl) :: (rid :: concat fr) :: fb)) ->
+  cells3 s s' pid P' lid L' rid Rn ->
+  s_kids P' = ia ++ lid :: ib -> s_leaf P' = false ->
+  reps s (s_kids L') lks' fl' -> (s_leaf L' = true -> s_kids L' = []) ->
+  incl (concat fl') (concat fl ++ concat fr) -> NoDup (concat fl') ->
+  rep s' pid (Node false (s_elts P') (ka ++ Node (s_leaf L') (s_elts L') lks' :: kb))
+      (pid :: concat (fa ++ (lid :: concat fl') :: fb)) /\
+  (forall x, In x (pid :: concat (fa ++ (lid :: concat fl') :: fb)) ->
+             In x (pid :: concat (fa ++ (lid :: concat fl) :: (rid :: concat fr) :: fb))).
+Proof.
+  intros HP HL HR HkP Hra Hrb Hrl Hrr Hnd Hcells HkP' HlP' Hrl' HlkL Hincl HndL'.
+  pose proof Hcells as (Hlen' & HP' & HL' & HR' & Hoth).
+  assert (Hflat : NoDup (pid :: concat fa ++ (lid :: concat fl) ++ (rid :: concat fr) ++ concat fb)).
+  { rewrite concat_mid in Hnd. cbn [concat] in Hnd. exact Hnd. }
+  destruct (nd2 _ _ _ _ _ _ _ Hflat) as (Hndm & Hin_old & _ & _ & _).
+  assert (Hnd' : NoDup (pid :: concat (fa ++ (lid :: concat fl') :: fb))).
+  { rewrite concat_mid. eapply nd_merge; eauto. }
+  assert (Hnew_in : forall x, In x (pid :: concat (fa ++ (lid :: concat fl') :: fb)) ->
+             In x (pid :: concat (fa ++ (lid :: concat fl) :: (rid :: concat fr) :: fb))).
+  { intros x Hx. apply in_fp2. rewrite concat_mid in Hx. cbn [In] in Hx. rewrite in_app_iff in Hx.
+    change ((lid :: concat fl') ++ concat fb) with (lid :: (concat fl' ++ concat fb)) in Hx. cbn [In] in Hx. rewrite in_app_iff in Hx.
+    destruct Hx as [Hx|[Hx|[Hx|[Hx|Hx]]]]; try tauto.
+    apply Hincl in Hx. apply in_app_iff in Hx. tauto. }
+  split; [|exact Hnew_in].
+  assert (Hfrm : forall ids trs fps, reps s ids trs fps ->
+            (forall x, In x (concat fps) -> x <> pid /\ x <> lid /\ x <> rid) -> reps s' ids trs fps).
+  { intros ids trs fps Hr Hd. eapply reps_frame; [exact Hr|]. intros x Hx. destruct (Hd x Hx) as (H1 & H2 & H3). now apply Hoth. }
+  rewrite <- HlP'. constructor; [assumption|rewrite HlP'; discriminate| |exact Hnd'].
+  rewrite HkP'. apply reps_app.
+  { apply (Hfrm _ _ _ Hra). intros x Hx. apply Hin_old. tauto. }
+  constructor.
+  - constructor; [assumption|assumption| |].
+    + apply (Hfrm _ _ _ Hrl'). intros x Hx. apply Hin_old. apply Hincl in Hx. apply in_app_iff in Hx. tauto.
+    + rewrite concat_mid in Hnd'. apply NoDup_cons_iff' in Hnd' as (_ & Hnd'). apply NoDup_app_iff in Hnd' as (_ & Hq & _).
+      apply NoDup_app_iff in Hq. tauto.
+  - apply (Hfrm _ _ _ Hrb). intros x Hx. apply Hin_old. tauto.
+Qed.
+
+Lemma merge_sim s pid p fp selfid index p' :
+  rep s pid p fp -> own s pid -> own s selfid -> kid_at s pid index selfid ->
+  merge p index = Ok p' ->
+  exists s' fp', s_merge s selfid pid index = Ok s' /\
+     rep s' pid p' fp' /\ sub s fp fp' /\ fr s s' fp /\ own s' pid /\ own s' selfid /\
+     kid_at s' pid index selfid.
+Proof.
+  intros Hr Hop Hos Hkid Hv. destruct p as [plf pes pks]. unfold merge in Hv.
+  destruct (split_at index pks) as [((ka & self) & rest)| |] eqn:Esp; cbn [bind] in Hv; try discriminate.
+  apply split_at_inv in Esp as (-> & Hka).
+  destruct rest as [|rgt kb]; [discriminate|].
+  destruct (split_at index pes) as [((ea & pe) & eb)| |] eqn:Ees; cbn [bind] in Hv; try discriminate.
+  destruct self as [slf ses sks]. destruct rgt as [rlf res_ rks]. inversion Hv; subst p'; clear Hv.
+  destruct (rep_open _ _ _ _ _ _ _ _ Hr Hop) as (ia & sid & ib & fa & fs & fb & Hopen & -> & ->).
+  pose proof Hopen as (n & Hn & Hcn & Hln & Hen & Hkn & Hra & Hrs & Hrb & Hlia & Hnd).
+  assert (sid = selfid).
+  { destruct Hkid as (n0 & Hn0 & Hk0). assert (n0 = n) by congruence. subst n0.
+    rewrite Hkn in Hk0. rewrite <- Hka, <- Hlia, nth_error_app_mid in Hk0. congruence. }
+  subst sid.
+  apply reps_cons_inv in Hrb as (rid & ib' & fr0 & fb' & -> & -> & Hrr & Hrb').
+  apply rep_inv in Hrr as (r & frk & Hrn & Hlr & Her & Hrks & -> & Hndr & Hlkr).
+  apply rep_inv in Hrs as (sn & fsk & Hsn & Hlsn & Hesn & Hsks & -> & Hnds & Hlks).
+  assert (Hflat1 : NoDup (pid :: concat fa ++ (selfid :: concat fsk) ++ (rid :: concat frk) ++ concat fb')).
+  { rewrite concat_mid in Hnd. cbn [concat] in Hnd. exact Hnd. }
+  destruct (nd2 _ _ _ _ _ _ _ Hflat1) as (Hndm & _ & HndS & _ & (Hps & Hpr & Hsr)).
+  assert (Hvp : (pid < length s)%nat) by (apply nth_error_Some; congruence).
+  assert (Hvs : (selfid < length s)%nat) by (apply nth_error_Some; congruence).
+  unfold s_merge. rewrite (sget_some _ _ _ Hn). cbn [bind]. rewrite Hkn.
+  replace (ia ++ selfid :: rid :: ib') with ((ia ++ [selfid]) ++ rid :: ib') by (now rewrite <- app_assoc).
+  rewrite split_at_app by (rewrite app_length; cbn; lia). cbn [bind].
+  rewrite (upd_some _ _ _ _ Hn). cbn [bind].
+  set (s1 := sset s pid (w_kids n ((ia ++ [selfid]) ++ ib'))).
+  assert (Hp1 : nth_error s1 pid = Some (w_kids n ((ia ++ [selfid]) ++ ib'))) by (unfold s1; now apply nth_sset_eq).
+  rewrite (sget_some _ _ _ Hp1). cbn [bind w_kids s_elts]. rewrite Hen, Ees. cbn [bind].
+  rewrite (upd_some _ _ _ _ Hp1). cbn [bind].
+  set (s2 := sset s1 pid (w_elts (w_kids n ((ia ++ [selfid]) ++ ib')) (ea ++ eb))).
+  assert (Hr2 : nth_error s2 rid = Some r) by (unfold s2, s1; rewrite !nth_sset_ne by congruence; assumption).
+  rewrite (sget_some _ _ _ Hr2). cbn [bind].
+  assert (Hs2 : nth_error s2 selfid = Some sn) by (unfold s2, s1; rewrite !nth_sset_ne by congruence; assumption).
+  rewrite (upd_some _ _ _ _ Hs2). cbn [bind].
+  set (s3 := sset s2 selfid (w_elts sn (s_elts sn ++ pe :: s_elts r))).
+  assert (Hs3 : nth_error s3 selfid = Some (w_elts sn (s_elts sn ++ pe :: s_elts r))).
+  { unfold s3. apply nth_sset_eq. unfold s2, s1. rewrite !length_sset. assumption. }
+  rewrite (sget_some _ _ _ Hs3). cbn [bind w_elts s_leaf]. rewrite Hlsn.
+  assert (Hp3 : nth_error s3 pid = Some (w_elts (w_kids n ((ia ++ [selfid]) ++ ib')) (ea ++ eb))).
+  { unfold s3. rewrite nth_sset_ne by congruence. unfold s2. apply nth_sset_eq. unfold s1. rewrite length_sset. assumption. }
+  assert (Hoth3 : forall x, x <> pid -> x <> selfid -> nth_error s3 x = nth_error s x).
+  { intros x H1 H2. unfold s3, s2, s1. rewrite !nth_sset_ne; auto. }
+  assert (Hcsn : s_cr sn = c) by (destruct Hos as (m & Hm & Hcm); congruence).
+  assert (Hfinish : forall sF L' lks' fl',
+    cells3 s sF pid (w_elts (w_kids n ((ia ++ [selfid]) ++ ib')) (ea ++ eb)) selfid L' rid r ->
+    s_cr L' = c -> reps s (s_kids L') lks' fl' -> (s_leaf L' = true -> s_kids L' = []) ->
+    incl (concat fl') (concat fsk ++ concat frk) -> NoDup (concat fl') ->
+    exists fp', rep sF pid (Node false (ea ++ eb) (ka ++ Node (s_leaf L') (s_elts L') lks' :: kb)) fp' /\
+      sub s (pid :: concat (fa ++ (selfid :: concat fsk) :: (rid :: concat frk) :: fb')) fp' /\
+      fr s sF (pid :: concat (fa ++ (selfid :: concat fsk) :: (rid :: concat frk) :: fb')) /\
+      own sF pid /\ own sF selfid /\ kid_at sF pid index selfid).
+  { intros sF L' lks' fl' Hcells HcL HrL HlkL Hincl HndL.
+    destruct (surgery_merge s sF pid n (w_elts (w_kids n ((ia ++ [selfid]) ++ ib')) (ea ++ eb)) selfid sn L' rid r ia ib' ka kb fa fb'
+                sks fsk rks frk lks' fl') as (Hrep & Hback); try assumption; try reflexivity.
+    { cbn. now rewrite <- app_assoc. }
+    eexists. split; [exact Hrep|].
+    pose proof Hcells as (HlenF & HPF & HLF & HRF & HothF).
+    assert (HfrF : fr s sF [pid; selfid; rid]).
+    { eapply cells3_fr; [exact Hcells|exact Hn|exact Hsn|exact Hrn|reflexivity|congruence|reflexivity]. }
+    split; [|split; [|split; [|split]]].
+    - intros x Hx. left. apply Hback. exact Hx.
+    - eapply fr_weaken; [exact HfrF|]. intros x Hx. apply in_fp2. cbn [In] in Hx. destruct Hx as [<-|[<-|[<-|[]]]]; tauto.
+    - exists (w_elts (w_kids n ((ia ++ [selfid]) ++ ib')) (ea ++ eb)). split; [assumption|cbn; assumption].
+    - exists L'. split; assumption.
+    - exists (w_elts (w_kids n ((ia ++ [selfid]) ++ ib')) (ea ++ eb)). split; [assumption|]. cbn [w_elts w_kids s_kids].
+      rewrite <- app_assoc. cbn [app]. rewrite <- Hka, <- Hlia. apply nth_error_app_mid. }
+  destruct slf.
+  - destruct (Hfinish s3 (w_elts sn (s_elts sn ++ pe :: s_elts r)) sks fsk) as (fp' & Hrep & Hrest); try assumption; try (cbn; assumption).
+    + split; [unfold s3, s2, s1; rewrite !length_sset; reflexivity|]. split; [assumption|]. split; [assumption|].
+      split; [rewrite Hoth3 by congruence; assumption|]. intros x H1 H2 H3. apply Hoth3; auto.
+    + cbn. intros _. destruct (Hlks eq_refl). assumption.
+    + intros x Hx. apply in_app_iff. now left.
+    + apply NoDup_cons_iff' in HndS. tauto.
+    + exists s3, fp'. split; [reflexivity|]. cbn [w_elts s_leaf s_elts] in Hrep. rewrite Hlsn, Hesn, Her in Hrep. split; assumption.
+  - rewrite (upd_some _ _ _ _ Hs3). cbn [bind].
+    set (s4 := sset s3 selfid (w_kids (w_elts sn (s_elts sn ++ pe :: s_elts r)) (s_kids sn ++ s_kids r))).
+    destruct (Hfinish s4 (w_kids (w_elts sn (s_elts sn ++ pe :: s_elts r)) (s_kids sn ++ s_kids r)) (sks ++ rks) (fsk ++ frk)) as (fp' & Hrep & Hrest); try (cbn; assumption).
+    + unfold s4. split; [unfold s3, s2, s1; rewrite !length_sset; reflexivity|]. split; [rewrite nth_sset_ne by congruence; assumption|].
+      split; [apply nth_sset_eq; unfold s3, s2, s1; rewrite !length_sset; assumption|].
+      split; [rewrite nth_sset_ne by congruence; rewrite Hoth3 by congruence; assumption|].
+      intros x H1 H2 H3. rewrite nth_sset_ne by congruence. apply Hoth3; auto.
+    + cbn. now apply reps_app.
+    + cbn. rewrite Hlsn. discriminate.
+    + rewrite concat_app. apply incl_refl.
+    + rewrite concat_app. assumption.
+    + exists s4, fp'. split; [reflexivity|]. cbn [w_elts w_kids s_leaf s_elts] in Hrep. rewrite Hlsn, Hesn, Her in Hrep. split; assumption.
+Qed.
+
+(* ---------------------------------------------------------------- balance *)
+
+Lemma left_steal_shape t p i p1 b :
+  try_left_steal t p i = Ok (p1, b) -> (b = false -> p1 = p) /\ length (n_kids p1) = length (n_kids p).
+Proof.
+  destruct p as [plf pes pks]. unfold try_left_steal. destruct i as [|im]; [intros H; inversion H; auto|].
+  destruct (split_at im pks) as [((ka & lft) & rest)| |] eqn:E; cbn [bind]; try discriminate.
+  apply split_at_inv in E as (-> & _). destruct rest as [|self kb]; try discriminate.
+  destruct (is_minimal t lft) as [mn| |]; cbn [bind]; try discriminate. destruct mn; [intros H; inversion H; auto|].
+  destruct (split_at im pes) as [((ea & pe) & eb)| |]; cbn [bind]; try discriminate.
+  destruct lft as [llf les lks]. destruct self as [slf ses sks].
+  destruct (pop_last les) as [(les' & le)| |]; cbn [bind]; try discriminate.
+  destruct llf; [intros H; inversion H; subst; split; [discriminate|cbn; rewrite !app_length; reflexivity]|].
+  destruct slf; try discriminate. destruct (pop_last lks) as [(lks' & lc)| |]; cbn [bind]; try discriminate.
+  intros H; inversion H; subst; split; [discriminate|cbn; rewrite !app_length; reflexivity].
+Qed.
+
+Lemma right_steal_shape t p i p1 b :
+  try_right_steal t p i = Ok (p1, b) -> (b = false -> p1 = p) /\ length (n_kids p1) = length (n_kids p).
+Proof.
+  destruct p as [plf pes pks]. unfold try_right_steal.
+  destruct (split_at i pks) as [((ka & self) & rest)| |] eqn:E; cbn [bind]; try discriminate.
+  apply split_at_inv in E as (-> & _). destruct rest as [|rgt kb]; [intros H; inversion H; auto|].
+  destruct (is_minimal t rgt) as [mn| |]; cbn [bind]; try discriminate. destruct mn; [intros H; inversion H; auto|].
+  destruct (split_at i pes) as [((ea & pe) & eb)| |]; cbn [bind]; try discriminate.
+  destruct rgt as [rlf res_ rks]. destruct self as [slf ses sks]. destruct res_ as [|re res']; try discriminate.
+  destruct rlf; [intros H; inversion H; subst; split; [discriminate|cbn; rewrite !app_length; reflexivity]|].
+  destruct slf; try discriminate. destruct rks as [|rc rks']; try discriminate.
+  intros H; inversion H; subst; split; [discriminate|cbn; rewrite !app_length; reflexivity].
+Qed.
+
+Lemma merge_shape p i p1 : merge p i = Ok p1 -> S (length (n_kids p1)) = length (n_kids p).
+Proof.
+  destruct p as [plf pes pks]. unfold merge.
+  destruct (split_at i pks) as [((ka & self) & rest)| |] eqn:E; cbn [bind]; try discriminate.
+  apply split_at_inv in E as (-> & _). destruct rest as [|rgt kb]; try discriminate.
+  destruct (split_at i pes) as [((ea & pe) & eb)| |]; cbn [bind]; try discriminate.
+  destruct self, rgt. intros H; inversion H; subst. cbn. rewrite !app_length. cbn. lia.
+Qed.
+
+(* the index of the child that has grown: the one the deletion continues in *)
+Definition grown (p p' : tree) (i : nat) : nat :=
+  if (length (n_kids p') <? length (n_kids p))%nat && (0 <? i)%nat then (i - 1)%nat else i.
+
+Lemma fr_step s s1 s2 fp fp1 fp2 :
+  fr s s1 fp -> sub s fp fp1 -> fr s1 s2 fp1 -> sub s1 fp1 fp2 -> fr s s2 fp /\ sub s fp fp2.
+Proof.
+  intros F1 S1 F2 S2. split; [eapply fr_trans; eauto|]. eapply (sub_trans s s1 fp fp1 fp2); [apply F1|exact S1|exact S2].
+Qed.
+
+Lemma balance_sim t s pid p fp cid i p' :
+  rep s pid p fp -> own s pid -> own s cid -> kid_at s pid i cid ->
+  balance t p i = Ok p' ->
+  exists s' fp', s_balance t s cid pid i = Ok s' /\
+     rep s' pid p' fp' /\ sub s fp fp' /\ fr s s' fp /\ own s' pid /\
+     exists gid, kid_at s' pid (grown p p' i) gid /\ own s' gid.
+Proof.
+  intros Hr Hop Hoc Hkid Hv. unfold balance in Hv. destruct (n_leaf p) eqn:Hlf; [discriminate|].
+  destruct (try_left_steal t p i) as [(p1 & ok1)| |] eqn:E1; cbn [bind] in Hv; try discriminate.
+  destruct (left_steal_sim t s pid p fp cid i p1 ok1 Hr Hop Hoc Hkid E1) as (s1 & fp1 & Hs1 & Hr1 & Hsub1 & Hfr1 & Hop1 & Hoc1 & Hk1).
+  destruct (left_steal_shape _ _ _ _ _ E1) as (Hsame1 & Hlen1).
+  unfold s_balance.
+  assert (Hpl : exists n, sget s pid = Ok n /\ s_leaf n = false).
+  { destruct p as [lf es ks]. destruct (rep_root _ _ _ _ _ _ Hr) as (n & Hn & Hl & _). exists n. split; [now apply sget_some|]. cbn in Hlf. congruence. }
+  destruct Hpl as (n & Hsg & Hlfn). rewrite Hsg. cbn [bind]. rewrite Hlfn, Hs1. cbn [bind].
+  destruct ok1.
+  { inversion Hv; subst p'. exists s1, fp1. split; [reflexivity|]. split; [assumption|]. split; [assumption|]. split; [assumption|]. split; [assumption|].
+    exists cid. unfold grown. rewrite Hlen1, Nat.ltb_irrefl. cbn [andb]. auto. }
+  specialize (Hsame1 eq_refl). subst p1.
+  destruct (try_right_steal t p i) as [(p2 & ok2)| |] eqn:E2; cbn [bind] in Hv; try discriminate.
+  destruct (right_steal_sim t s1 pid p fp1 cid i p2 ok2 Hr1 Hop1 Hoc1 Hk1 E2) as (s2 & fp2 & Hs2 & Hr2 & Hsub2 & Hfr2 & Hop2 & Hoc2 & Hk2).
+  destruct (right_steal_shape _ _ _ _ _ E2) as (Hsame2 & Hlen2).
+  rewrite Hs2. cbn [bind].
+  destruct (fr_step _ _ _ _ _ _ Hfr1 Hsub1 Hfr2 Hsub2) as (Hfr02 & Hsub02).
+  destruct ok2.
+  { inversion Hv; subst p'. exists s2, fp2. split; [reflexivity|]. split; [assumption|]. split; [assumption|]. split; [assumption|]. split; [assumption|].
+    exists cid. unfold grown. rewrite Hlen2, Nat.ltb_irrefl. cbn [andb]. auto. }
+  specialize (Hsame2 eq_refl). subst p2.
+  destruct i as [|im].
+  - destruct (merge_sim s2 pid p fp2 cid 0 p' Hr2 Hop2 Hoc2 Hk2 Hv) as (s3 & fp3 & Hs3 & Hr3 & Hsub3 & Hfr3 & Hop3 & Hoc3 & Hk3).
+    rewrite Hs3. destruct (fr_step _ _ _ _ _ _ Hfr02 Hsub02 Hfr3 Hsub3) as (Hfr03 & Hsub03).
+    exists s3, fp3. split; [reflexivity|]. split; [assumption|]. split; [assumption|]. split; [assumption|]. split; [assumption|].
+    exists cid. unfold grown. cbn [Nat.ltb Nat.leb andb]. rewrite andb_false_r. auto.
+  - (* merge with the left sibling, which is copied first *)
+    pose proof (merge_shape _ _ _ Hv) as Hml.
+    destruct p as [plf pes pks]. cbn [n_leaf] in Hlf. subst plf. pose proof Hv as Hv0. unfold merge in Hv0.
+    destruct (split_at im pks) as [((ka & lft) & rest)| |] eqn:Esp; cbn [bind] in Hv0; try discriminate.
+    apply split_at_inv in Esp as (-> & Hka). clear Hv0.
+    destruct (cow_child_ok _ _ _ _ _ _ _ _ _ Hr2 Hka) as (s3 & lid & Ecow). rewrite Ecow. cbn [bind].
+    destruct (cow_child_sim _ _ _ _ _ _ _ _ _ _ _ Hr2 Hka Hop2 Ecow)
+      as (n1 & ia1 & ib1 & fa1 & fl & fb1 & Hn1 & Hcn1 & Hln1 & Hen1 & Hkn1 & Hra1 & Hrl & Hrb1 & Hlia1 & Hnd1 & Hol & Hfr3 & Hsub3 & Hoth).
+    assert (Hopen3 : opened s3 pid pes ia1 lid ib1 ka lft rest fa1 fl fb1).
+    { exists n1. repeat split; try assumption. congruence. }
+    destruct (opened_close _ _ _ _ _ _ _ _ _ _ _ _ Hopen3) as (Hr3 & Hop3).
+    assert (Hk3 : kid_at s3 pid im lid).
+    { exists n1. split; [assumption|]. rewrite Hkn1, <- Hlia1. apply nth_error_app_mid. }
+    destruct (merge_sim s3 pid _ _ lid im p' Hr3 Hop3 Hol Hk3 Hv) as (s4 & fp4 & Hs4 & Hr4 & Hsub4 & Hfr4 & Hop4 & Hol4 & Hk4).
+    rewrite Hs4.
+    assert (Hfr3' : fr s2 s3 fp2).
+    { eapply fr_weaken; [exact Hfr3|]. intros x [<-|[]]. eapply rep_root_in; eauto. }
+    destruct (fr_step _ _ _ _ _ _ Hfr02 Hsub02 Hfr3' Hsub3) as (Hfr03 & Hsub03).
+    destruct (fr_step _ _ _ _ _ _ Hfr03 Hsub03 Hfr4 Hsub4) as (Hfr04 & Hsub04).
+    exists s4, fp4. split; [reflexivity|]. split; [assumption|]. split; [assumption|]. split; [assumption|]. split; [assumption|].
+    exists lid. unfold grown. cbn [n_kids] in *.
+    assert (Hlt : (length (n_kids p') <? length (ka ++ lft :: rest))%nat = true) by (apply Nat.ltb_lt; lia).
+    rewrite Hlt. cbn [andb Nat.ltb Nat.leb]. replace (S im - 1)%nat with im by lia. auto.
 Qed.
 
 End SIM.
